@@ -3,30 +3,32 @@ import json
 import os
 
 # c17.go needs only the shared core (newFgen is in prog.go): no other property's Go file can break this check
-FILES = ["c17.go", "gen_mapranges.go"]
+FILES = ["c17.go", "c17dirty.go", "gen_mapranges.go", "gen_globals.go"]
 
-PROPS = ["AvoVerif.Props.C17", "AvoVerif.Props.C17Tables", "AvoVerif.Props.C17Pipeline", "AvoVerif.Props.C02"]
+PROPS = ["AvoVerif.Props.C17", "AvoVerif.Props.C17Tables", "AvoVerif.Props.C17Pipeline", "AvoVerif.Props.C17History", "AvoVerif.Props.C02"]
 
 
 def run(ctx):
     if not ctx.build_harness(FILES):
         return
-    ctx.regen([("Gen/Regs", "Regs"), ("Gen/MapRanges", "MapRanges")])
+    ctx.regen([("Gen/Regs", "Regs"), ("Gen/MapRanges", "MapRanges"), ("Gen/Globals", "Globals")])
     ctx.forbidden_scan()
     if not ctx.build_driver():
         return
     if ctx.lake_each(PROPS):
         ctx.audit("C17")
     if ctx.tier == "thorough":
-        ctx.leanchecker(["AvoVerif.Props.C17", "AvoVerif.Props.C17Tables", "AvoVerif.Props.C17Pipeline"])
+        ctx.leanchecker(["AvoVerif.Props.C17", "AvoVerif.Props.C17Tables", "AvoVerif.Props.C17Pipeline", "AvoVerif.Props.C17History"])
     if ctx.tier == "quick":
-        n, nctx, runs, procs = 200, 400, 16, 4
+        n, nctx, runs, procs, nhist = 200, 400, 16, 4, 400
     else:
-        n, nctx, runs, procs = 2000, 4000, 40, 10
+        n, nctx, runs, procs, nhist = 2000, 4000, 40, 10, 6000
     dump = os.path.join(ctx.dir, "differing-outputs")
-    nt = lambda req, resp: req.startswith("accept-det") and " err:" not in req and " panic" not in req
+    nt = lambda req, resp: ((req.startswith("accept-det") and " err:" not in req and " panic" not in req)
+                            or (req.startswith("allochist") and "ok " in resp)
+                            or (req.startswith("accept-order") and " err" not in req and " panic" not in req))
     ctx.run_corpus("c17", nontrivial=nt)
-    ctx.differential("c17", n, extra=["-nctx", str(nctx), "-runs", str(runs), "-procs", str(procs), "-dump", dump],
+    ctx.differential("c17", n, extra=["-nctx", str(nctx), "-runs", str(runs), "-procs", str(procs), "-nhist", str(nhist), "-dump", dump],
                      nontrivial=nt)
     # floors: a generator or a compile step that silently drops cases must not pass as "nothing differed"
     try:
@@ -38,6 +40,16 @@ def run(ctx):
                   ("c_compiled_ge2_funcs", 0.25 * nctx), ("c_compiled_with_data", 0.25 * nctx),
                   ("c_compiled_with_constraints", 0.15 * nctx), ("c_compiled_ge3_isa", 0.3 * nctx),
                   ("isa_lists", 0.5 * (n + nctx))]
+        # history in the process: the dirtying between the compared generations and the allocator histories must
+        # really have happened, in every category (otherwise "nothing differed" means nothing)
+        nb = 0.45 * (n + nctx) * runs
+        floors += [("dirty_batches", nb), ("dirty_allocators", nb), ("dirty_newallocator_list", 0.2 * nb),
+                   ("dirty_setpriority_k1", nb), ("dirty_setpriority_k2", nb), ("dirty_setpriority_k3", nb),
+                   ("dirty_allocate_ok", 0.5 * nb), ("dirty_family_accessor_calls", 0.5 * nb),
+                   ("dirty_accessor_slices_mutated", 2 * nb), ("dirty_accessor_methods", 5),
+                   ("dirty_printer_runs", 0.05 * nb), ("dirty_collections", 0.2 * nb), ("dirty_globalctx_functions", 0.1 * nb),
+                   ("hist_lines", nhist), ("hist_new_after_prio_same_kind", 0.3 * nhist), ("hist_ge2_allocators", 0.5 * nhist),
+                   ("hist_allocate_ok", nhist), ("order_lines", 3 * (1 + 2 * procs))]
         low = [f"{k}={st.get(k, 0)} < {int(v)}" for k, v in floors if st.get(k, 0) < v]
         if st.get("runs_per_program", 0) != runs + procs:
             low.append(f"runs_per_program={st.get('runs_per_program')} != {runs + procs}")
@@ -54,7 +66,24 @@ def run(ctx):
         f"{procs} fresh processes (fresh map hash seeds; even children generate the programs forwards, odd ones backwards, routes "
         f"alternate); the digest asm bytes . stub bytes . (Allocation, ISA, LocalSize) — or the error text — must be identical in all "
         f"{runs + procs} runs; the ISA list of every compiled function is compared with the model; floors on the number of compiled "
-        f"programs per shape are obligations. non-trivial = compiled successfully")
+        f"programs per shape are obligations. non-trivial = compiled successfully. "
+        f"HISTORY IN THE PROCESS: before every second in-process run, and before every generation in the children 1..{procs - 1} "
+        f"(child 0 stays a clean reference process), one batch of unrelated work through the public API (c17Dirty): 1-3 throw-away "
+        f"allocators of a random kind (NewAllocatorForKind, or NewAllocator on a shuffled part of the family) with random SetPriority "
+        f"(also a complete re-ranking) / Add / AddInterference / Allocate; every exported niladic method returning a slice or map — "
+        f"found by reflection on the register families and on a compiled throw-away file, its functions, instructions, signature — "
+        f"called and the result reversed / overwritten / cleared (also beyond its length) by the caller; both printers with another "
+        f"Config on another file; Collections; functions built on the REAL package-level context. (h) {nhist} generated histories of "
+        f"5-45 public allocator calls over 1-6 interleaved allocators of kinds 0-4 played on the real code in the dirtied process and "
+        f"compared exactly with the process model (allochist); accept-order: the register assignment of the clique program of each kind "
+        f"on a new allocator, in the fresh child and in the dirty processes (parent after every 64 programs and at the end, every child "
+        f"at start and end). Floors on every category of dirtying are obligations")
+    ctx.coverage["state_census"] = ("Gen.Globals (go/ssa, field-based may-point-into analysis over the same packages): for every package-level "
+                                    "variable the ways in which memory reachable from it is written, appended to, handed to a function without a "
+                                    "body in these packages, or returned as a slice/map by an exported function, in functions that can run after "
+                                    "initialisation; obligation globals_expected = every (variable, event) is a read by the standard library, a "
+                                    "user callback, the package-level build context / CLI flags (state by design), or one of the listed rows "
+                                    "with its reason; no_variation_sources = no clock / random / environment / pid function is called")
     ctx.coverage["map_census"] = ("Gen.MapRanges (go/types over reg ir pass printer build gotypes buildtags attr operand x86 internal/prnt "
                                   "internal/stack src): range over map, maps.Keys/Values/All (not directly under slices.Sorted*), reflect "
                                   "MapKeys/MapRange/Seq, sync.Map.Range; obligation mapIterTypes_known = every (package, underlying map type) "
@@ -76,6 +105,20 @@ def run(ctx):
         "the package-level route runs on a fresh context swapped in through the verif hook build.VerifSwapContext; reuse of the one real "
         "global context for several build.Generate calls is not the same program twice and is out of scope",
         "printer.Config.Argv/Name are fixed by the harness: output that embeds the real command line differs between invocations by design",
+    ]
+    ctx.assumptions += [
+        "PROVED about the process model (Props/C17History): a new allocator is the same object after any history "
+        "(new_allocator_history_independent), operations on other allocators are invisible (run_proj, run_answers), the operations "
+        "of AllocateRegisters on a new allocator answer allocKind (compileObj_eq_allocKind), hence the allocation of a function after "
+        "any history with any interleaving is allocKind tbl is kind (compile_after_any_history); the model is tied to the code by the "
+        "allochist lines (exact), which do not use an allocator after its Allocate",
+        "the state census trusts: the list of standard-library functions that only read their arguments (C17Tables.purePkgs, "
+        "readOnlyExterns), that go/types' Sizes.Offsetsof returns a fresh slice, and its own call resolution (static callees, every "
+        "implementation declared in the analysed packages for interface calls, address-taken functions of identical signature for "
+        "function values); reflection, unsafe and cgo are not followed; state kept in packages outside the generation path is not seen",
+        "ir.Instruction.ISA and .Suffixes alias rows of package-level tables of x86 (rows `returns` of the census): no code of the "
+        "generation path writes them (proved by the census obligation), but a USER who overwrites them in place changes every later "
+        "generation in the process; exported struct fields are not mutated by the harness (only results of exported methods are)",
     ]
     ctx.trusted.append("C17: the digest comparison (sha256, truncated to 40 bits per part) and the per-run regeneration are harness glue; "
                        "the Lean acceptor only compares the digests and rejects panics")
